@@ -160,6 +160,9 @@ class SymAtoms:
 
     def translate(self, t):
         self.mutations.append("translate")
+        if not hasattr(self, "translations"):
+            self.translations = []
+        self.translations.append(_np.array(t, dtype=object).copy())
         self.positions = self.positions + NP.array(t)
 
     def wrap(self, **kw):
@@ -168,6 +171,18 @@ class SymAtoms:
         st = cur()
         st.safety("singular-cell-in-wrap", det_term(self.cell) != 0)
         pos, cell, pbc = self.positions, self.cell, self.pbc
+        # ase.Atoms.wrap(**wrap_kw): 'pbc' defaults to the structure's own flags; a scalar is broadcast to the three directions
+        for k in kw:
+            if k not in ("pbc", "eps"):
+                raise Unsupported("Atoms.wrap(%s=...)" % k)
+        if "pbc" in kw and kw["pbc"] is not None:
+            p = kw["pbc"]
+            if isinstance(p, (bool, SB)) or (hasattr(p, "shape") and getattr(p, "shape") == ()):
+                pbc = [p, p, p]
+            else:
+                pbc = list(p)
+                if len(pbc) != 3:
+                    raise Unsupported("Atoms.wrap(pbc=<%d values>)" % len(pbc))
         if not isinstance(pos, RowArr):
             pos = obj(pos)
             new = pos.copy()
